@@ -197,6 +197,147 @@ def check_base64(ctx, d, exe, strings):
     ctx.sample(dict(kind="base64-decode", input=hexs(texts[0]), model=mo[0], impl=io[0]))
 
 
+# ------------------------------------------------------------------------------------------ quoted-printable
+def qp_lines_ok(enc):
+    return all(len(l) <= 76 for l in enc.split(b"\r\n")) and all(33 <= c <= 126 or c in (13, 10) for c in enc)
+
+
+def check_qp(ctx, d, exe, strings):
+    import quopri
+    rng = ctx.rng
+    # long runs of bytes that need escaping put the soft breaks at every column class
+    extra = [bytes([255]) * n for n in (23, 24, 25, 26, 49, 50, 73, 74, 75, 76, 77)] + [b"a" * n for n in (72, 73, 74, 75, 76, 77, 146, 147, 148)] \
+        + [b"a" * k + b"\xff" * 3 + b"b" * 80 for k in range(68, 77)] + [b"=" * 30, b"?_" * 40, b" \t" * 40, b"\r\n" * 30]
+    cases = [(bs, 0) for bs in strings + extra] + [(bs, col) for bs in extra[:6] + strings[3:12] for col in (1, 5, 72, 73, 75)]
+    exprs, reqs = [], []
+    for bs, col in cases:
+        exprs.append('(let* ((x (hx "%s")) (e (quoted-printable-encode-bytevector x %d))) (list (xh e) (xh (quoted-printable-decode-bytevector e))))' % (hexs(bs), col))
+        reqs.append("qpenc %d %s" % (col, hexs(bs)))
+    mo = run_model(exe, reqs)
+    io = scm.run_cases(d, exprs, prelude_extra=PRELUDE, imports=IMPORTS)
+    encs = []
+    for (bs, col), m, i in zip(cases, mo, io):
+        ctx.count(1, key=("qpenc", col, bs), nontrivial=len(bs) > 0)
+        encs.append(unhex(m))
+        want = "(%s %s)" % (mx(m), xs(bs))
+        if i != want:
+            rp = "echo '(import (scheme base) (scheme write) (chibi quoted-printable)) (let ((e (quoted-printable-encode-bytevector (bytevector %s) %d))) (write (utf8->string e)) (write (quoted-printable-decode-bytevector e)))' | chibi-scheme /dev/stdin" % (" ".join(map(str, bs[:400])), col)
+            f = i[1:-1].split(" ") if (i and i.startswith("(") and not bad(i)) else None
+            if f and len(f) == 2 and f[0] not in ("not-a-bytevector",):
+                enc = unhex(f[0][1:] if f[0] != "_" else "_")
+                lines_ok = qp_lines_ok(enc)
+                back_ok = f[1] == xs(bs)
+                rfc_ok = quopri.decodestring(enc) == bs
+                if lines_ok and back_ok and rfc_ok:
+                    ctx.broken("correspondence:qp-encode", "model and implementation differ but the implementation is right: %s" % hexs(bs)[:200])
+                    continue
+                why = ",".join(w for w, ok in (("line>76-or-bad-char", lines_ok), ("decode(encode)!=id", back_ok), ("not-rfc2045", rfc_ok)) if not ok)
+            else:
+                why = "no-result"
+            ctx.violation("qp:encode:" + why + (":start-col" if col else ""), input=hexs(bs)[:2000], start_col=col, expected=want[:2000], observed=(i or "")[:2000], replay=rp)
+    ctx.sample(dict(kind="qp-encode", input=hexs(cases[len(strings) + 3][0]), model=mo[len(strings) + 3], impl=io[len(strings) + 3]))
+    # decoder: hostile text
+    texts = [b"a=", b"a=4", b"a=41", b"=", b"==", b"=\n", b"=\r\n", b"a=\nb", b"a=\r\nb", b"a=\rb", b"a =\r\n b", b"a ", b"a \t", b"a \nb", b"a \r\nb", b"a \rb", b"a b", b"a_b", b"=zz", b"=4z", b"=a1", b"=A1x",
+             b" ", b"\t\t", b"x=\r", b"x=3D=", b"=3D=3D", b"=\n=\n", b"  \r"]
+    for e in encs[:200 if not ctx.thorough else 2000]:
+        texts.append(mutate(rng, e[:rng.choice([6, 20, 80, len(e)])], b"=0123456789ABCDEFabcdef \t\r\n_?"))
+    exprs = ['(xh (quoted-printable-decode-bytevector (hx "%s")))' % hexs(t) for t in texts]
+    reqs = ["qpdec " + hexs(t) for t in texts]
+    mo = run_model(exe, reqs)
+    io = scm.run_cases(d, exprs, prelude_extra=PRELUDE, imports=IMPORTS)
+    for t, m, i in zip(texts, mo, io):
+        ctx.count(1, key=("qpdec", t), nontrivial=True)
+        rp = "echo '(import (scheme base) (scheme write) (chibi quoted-printable)) (write (quoted-printable-decode-bytevector (bytevector %s)))' | chibi-scheme /dev/stdin" % " ".join(map(str, t[:400]))
+        if bad(i):
+            ctx.violation("qp:decode-crash", input=hexs(t), expected=m, observed=i, replay=rp)
+        elif m == "N":
+            if not (i == "not-a-bytevector" or i.startswith("ERR")):
+                ctx.violation("qp:decode-value-where-model-has-none", input=hexs(t), expected="no bytevector (the loop falls off its cond)", observed=i, replay=rp)
+        elif i != mx(m[2:]):
+            ctx.violation("qp:decode-value", input=hexs(t), expected=m, observed=i, replay=rp)
+    ctx.sample(dict(kind="qp-decode", input=hexs(texts[7]), model=mo[7], impl=io[7]))
+
+
+# ------------------------------------------------------------------------------------------ URI escaping
+URI_CPS = list(range(0, 0x80)) + [0x80, 0xa0, 0xa7, 0xd7, 0xe9, 0xf7, 0xff] + [0x3bb, 0x4e2d, 0x663, 0x10400]     # ASCII, Latin-1, letters/digits above
+URI_BAD = [0x20ac, 0x2028, 0x3000, 0x100 + 0x7e, 0x1f600, 0xffff]                                                # not alphanumeric, >= U+0100
+
+
+def cps_utf8(cps):
+    return "".join(map(chr, cps)).encode("utf-8", "surrogatepass")
+
+
+def cpl(cps):
+    return ",".join("%x" % c for c in cps) if cps else "_"
+
+
+def check_uri(ctx, d, exe):
+    rng = ctx.rng
+    # which non-ASCII characters does the implementation's uri-safe-char? let through (Unicode tables: a parameter of the theorem)
+    probe = [c for c in URI_CPS + URI_BAD if c >= 128]
+    io = scm.run_cases(d, ['(let ((s (cps %d))) (if (equal? (uri-encode s) s) 1 0))' % c for c in probe], prelude_extra=PRELUDE, imports=IMPORTS)
+    ext = [c for c, i in zip(probe, io) if i == "f1"]
+    strs = [[c] for c in URI_CPS + URI_BAD] + [[37, 50, 53], [43], [32], [97, 32, 43, 37], list(range(0x20, 0x7f))]
+    for _ in range(150 if not ctx.thorough else 5000):
+        pool = URI_CPS if rng.random() < 0.8 else URI_CPS + URI_BAD
+        strs.append([rng.choice(pool) if rng.random() < 0.7 else rng.choice(b"az09-_.!~*'() %+/?&=#") for _ in range(rng.randrange(0, 12))])
+    cases = [(s, plus) for s in strs for plus in (False, True)]
+    exprs = ['(let* ((s (cps %s)) (e (uri-encode s %s)) (b (uri-decode e %s))) (list (xh (string->utf8 e)) (xh (string->utf8 b))))' % (" ".join(map(str, s)), "#t" if p else "#f", "#t" if p else "#f") for s, p in cases]
+    reqs = ["urienc %d %s %s" % (p, cpl(ext), cpl(s)) for s, p in cases]
+    mo = run_model(exe, reqs)
+    io = scm.run_cases(d, exprs, prelude_extra=PRELUDE, imports=IMPORTS)
+    encs = []
+    for (s, p), m, i in zip(cases, mo, io):
+        ctx.count(1, key=("urienc", p, tuple(s)), nontrivial=len(s) > 0)
+        menc = [] if m == "_" else [int(x, 16) for x in m.split(",")]
+        encs.append(menc)
+        above = [c for c in s if c >= 256 and c not in ext]
+        want = "(%s %s)" % (xs(cps_utf8(menc)), xs(cps_utf8(s)))
+        if i == want:
+            continue
+        rp = "echo '(import (scheme base) (scheme write) (chibi uri)) (let ((e (uri-encode (list->string (map integer->char (list %s))) %s))) (write e) (write (uri-decode e %s)))' | chibi-scheme /dev/stdin" % (" ".join(map(str, s)), "#t" if p else "#f", "#t" if p else "#f")
+        f = i[1:-1].split(" ") if (i and i.startswith("(") and not bad(i) and not i.startswith("(ERR")) else None
+        if f and len(f) == 2 and f[0] == xs(cps_utf8(menc)) and above:
+            # encoder = model; the round trip fails exactly as uri_roundtrip_refuted says
+            ctx.violation("uri:roundtrip:unsafe-char-above-latin1", input=cpl(s), plus=p, expected=want, observed=i, replay=rp)
+        elif f and len(f) == 2 and f[1] == xs(cps_utf8(s)):
+            ctx.broken("correspondence:uri-encode", "model and implementation differ on the escaped text but the round trip holds: %s model=%s impl=%s" % (cpl(s), m, i))
+        else:
+            ctx.violation("uri:roundtrip:" + ("plus" if p else "plain"), input=cpl(s), plus=p, expected=want, observed=i, replay=rp)
+    ctx.sample(dict(kind="uri", input=cpl(cases[70][0]), model=mo[70], impl=io[70]))
+    # hostile text for the decoder
+    texts = [[37], [97, 37], [97, 37, 52], [37, 52, 49], [37, 122, 122], [37, 45, 49], [37, 43, 102], [37, 49, 46], [37, 35, 101], [37, 37, 37], [37, 37, 52, 49], [37, 52, 37, 52, 49],
+             [37, 70, 70], [37, 102, 102], [37, 48, 48], [43, 37, 50, 98], [0x20ac, 37, 52, 49], [37, 0x20ac, 52]]
+    for e in encs[:150 if not ctx.thorough else 3000]:
+        t = list(e)
+        for _ in range(rng.randrange(1, 3)):
+            k = rng.randrange(4)
+            if k == 0 and t:
+                del t[rng.randrange(len(t))]
+            elif k == 1:
+                t.insert(rng.randrange(len(t) + 1), rng.choice([37, 37, 43, 48, 102, 71, 45, 46, 0x3bb]))
+            elif k == 2 and t:
+                t = t[:rng.randrange(len(t))]
+            else:
+                t.append(37)
+        texts.append(t)
+    cases = [(t, p) for t in texts for p in (False, True)]
+    exprs = ['(xh (string->utf8 (uri-decode (cps %s) %s)))' % (" ".join(map(str, t)), "#t" if p else "#f") for t, p in cases]
+    reqs = ["uridec %d %s" % (p, cpl(t)) for t, p in cases]
+    mo = run_model(exe, reqs)
+    io = scm.run_cases(d, exprs, prelude_extra=PRELUDE, imports=IMPORTS)
+    for (t, p), m, i in zip(cases, mo, io):
+        ctx.count(1, key=("uridec", p, tuple(t)), nontrivial=True)
+        rp = "echo '(import (scheme base) (scheme write) (chibi uri)) (write (uri-decode (list->string (map integer->char (list %s))) %s))' | chibi-scheme /dev/stdin" % (" ".join(map(str, t)), "#t" if p else "#f")
+        if bad(i):
+            ctx.violation("uri:decode-crash", input=cpl(t), expected=m, observed=i, replay=rp)
+        elif m != "N":
+            want = xs(cps_utf8([] if m[2:] == "_" else [int(x, 16) for x in m[2:].split(",")]))
+            if i != want:
+                ctx.violation("uri:decode-value", input=cpl(t), plus=p, expected=want, observed=i, replay=rp)
+        # model None = an escape that is not two hex digits: the code raises or (sign, decimal point) returns some character; both are "value or error"
+
+
 # ------------------------------------------------------------------------------------------ numeric accessors
 def py_int_encode(w, big, v):
     return (v % (1 << (8 * w))).to_bytes(w, "big" if big else "little")
@@ -502,10 +643,14 @@ def run(ctx):
     exe = ctx.extract("C19")
     if exe is None:
         return
+    import time
     strings = byte_strings(ctx.rng, ctx.thorough)
-    check_base64(ctx, d, exe, strings)
-    check_accessors(ctx, d, exe)
-    dasan = ctx.build("asan")
-    check_json(ctx, d, exe, dasan)
+    t0 = time.time(); check_base64(ctx, d, exe, strings); t1 = time.time()
+    check_qp(ctx, d, exe, strings); t2 = time.time()
+    check_uri(ctx, d, exe)
+    check_accessors(ctx, d, exe); t3 = time.time()
+    dasan = ctx.build("asan"); t4 = time.time()
+    check_json(ctx, d, exe, dasan); t5 = time.time()
+    ctx.note("wall seconds: base64 %.1f, qp %.1f, accessors %.1f, asan build %.1f, json %.1f" % (t1 - t0, t2 - t1, t3 - t2, t4 - t3, t5 - t4))
     ctx.assume("floating-point accessors (ieee-single/double), SRFI 160 uniform vectors, CSV and the streaming port variants of the codecs are outside this check")
     ctx.trust("byte reversal stands for the sexp_swap_* bit arithmetic of bytevector.stub; utf8->string/string->utf8 (C12) carry the string variants of the codecs")
